@@ -454,6 +454,33 @@ def cyclic_import_sources():
     return out
 
 
+def huge_and_mutating_sources():
+    """Iterators whose size hint is as large as a number can say (the natives that collect or measure them must not
+    believe it blindly), containers changed by the str() of their own elements while a native walks them, and errors
+    raised while a catch clause is being matched."""
+    out = []
+    # (collecting such an iterator directly is a program that asks for 10^18 elements: it runs out of memory or time,
+    # which is not this property's business; every shape here ends after a few elements)
+    for big in ("1e18", "1e300", "9007199254740993", "(1/0)"):
+        for tail in (".times().len()", ".times().chain(%s.times()).len()" % big, ".times().take(3).list()",
+                     ".times().skip(2).take(2).list()", ".times().zip(%s.times()).take(1).list()" % big,
+                     ".times().map(|x| x).take(2).list()", ".times().chain([1].iter()).take(2).into(List.collect)"):
+            out.append(("huge-%s%s" % (big, tail), "try { print(%s%s); } catch e { print(e.cls().name()); }\nprint(\"end\");" % (big, tail)))
+        out.append(("huge-until-%s" % big, "try { print(0.until(%s).take(2).list()); } catch e { print(e.cls().name()); }\nprint(\"end\");" % big))
+    grow = ("let %s = %s;\nclass Grow {\n  str() { %s return 'grow'; }\n}\n")
+    for kind, init, add, fill in (("map", "{}", "for i in 100.times() { c[i] = i; }", "c['a'] = Grow();\nc['b'] = Grow();"),
+                                  ("map-remove", "{}", "c.remove('a'); c.remove('b'); c.remove('z');", "c['a'] = Grow();\nc['b'] = Grow();\nc['z'] = 1;"),
+                                  ("list", "[]", "for i in 100.times() { c.push(i); }", "c.push(Grow());\nc.push(Grow());"),
+                                  ("list-clear", "[]", "c.clear();", "c.push(Grow());\nc.push(Grow());\nc.push(3);"),
+                                  ("list-pop", "[]", "c.pop();", "c.push(Grow());\nc.push(Grow());\nc.push(3);")):
+        for use in ("print(c.str().len() > 0);", "print('${c}'.len() > 0);", "print(c);", "print([c, c].str().len() > 0);"):
+            out.append(("mutating-str-%s-%s" % (kind, use[:9]), (grow % ("c", init, add)) + fill + "\ntry { " + use + " } catch e { print(e.cls().name()); }\nprint(\"end\");"))
+    out.append(("catch-class-undefined-yet", "fn f() {\n  try { raise Error(\"x\"); } catch e: Later { print(\"caught\"); }\n}\ntry { f(); } catch e { print(e.cls().name()); }\nclass Later : Error {}\nprint(\"end\");"))
+    out.append(("catch-class-undefined-yet-uncaught", "fn f() {\n  try { raise Error(\"x\"); } catch e: Later { print(\"caught\"); }\n}\nf();\nclass Later : Error {}"))
+    out.append(("catch-class-expression-raises-second-clause", "fn f() {\n  try { [][1]; } catch e: Later { print(\"a\"); } catch e { print(\"b\"); }\n}\ntry { f(); } catch e { print(e.cls().name()); }\nlet Later = 1;\nprint(\"end\");"))
+    return out
+
+
 def recursion_sources():
     out = []
     for name, (decl, start) in sorted(RECURSIONS.items()):
@@ -473,7 +500,7 @@ def recursion_sources():
 def extra(tier, ctx):
     out = []
     for name, src in sorted(SHAPES.items()) + recursion_sources() + field_corruption_sources() + blocked_in_callback_sources() + bad_superclass_sources() + \
-            native_as_callback_sources() + odd_channel_sources() + inconsistent_comparator_sources():
+            native_as_callback_sources() + odd_channel_sources() + inconsistent_comparator_sources() + huge_and_mutating_sources():
         o = run_source(src, ctx, "shape:" + name, "shape " + name)
         o.nontrivial = True
         o.labels = ["shape"]
